@@ -17,7 +17,7 @@ pub fn prop() -> Prop {
         rule: "(a) the full table of < <= > >= = != over a 103-text universe (incl. non-integral numbers one unit in the last place apart) (with -0, -0.0 next to 0, 0.0, and objects that differ only in member order, for which only the order axioms are required) of all types (equal-by-value spellings, numbers |n|<2^53 or non-integral) through the real functions, then totality, antisymmetry w.r.t. =, transitivity over all triples, congruence of =, agreement with the documented order; (b) --sort-by on all streams of <=5 (thorough <=7) rows {k,v,id} over the keys {\"b\",\"a\",2,null,absent} x 24 key/direction configurations (three repeat a selection with another direction; four use keys that are calls whose option texts share their first word or differ in one blank) (1..3 keys; omitted/ASC/DESC/asc/Desc; `=` and blank separators), all streams of <=4 (thorough <=5) rows over 16 keys of all types (0 and -0 among them) in both directions, and long streams with >11 distinct keys and >8 rows per key; (c) sort, sort_unique, sort_by, sort_by_keys, sort_by_values, sort_by_values_by on all lists/objects of <=5 (thorough <=6) elements over an 8-value universe, and on lists/objects of 20..100 elements with distinguishable ties; non-trivial = the input holds a tie between distinguishable rows, an absent key or two types; distinct by construction",
         explanation: "rows carry ids, so permutation, stability and multi-key order are observable; the output is compared with the reference pipeline (stable lexicographic insertion sort under the documented order) and, independently, checked to be a permutation of the sortable rows in which tied neighbours keep arrival order",
         assumptions: COMMON_ASSUMPTIONS.to_vec(),
-        guards: vec!["member-names-beyond-ascii-letters", "command-line-respelled", "tie-between-distinguishable-rows", "absent-key-dropped", "mixed-types", "three-keys", "desc", "more-than-11-distinct-keys", "more-than-8-rows-per-key", "order-table-complete", "function-sorts-with-ties"],
+        guards: vec!["sort-keys-that-read-enclosing-inputs", "member-names-beyond-ascii-letters", "command-line-respelled", "tie-between-distinguishable-rows", "absent-key-dropped", "mixed-types", "three-keys", "desc", "more-than-11-distinct-keys", "more-than-8-rows-per-key", "order-table-complete", "function-sorts-with-ties"],
         budget_s: (100, 2400),
         single_worker: false,
         run,
@@ -436,6 +436,36 @@ fn run(ctx: &mut Ctx) {
             check_function(ctx, "(sort_by_values .)", &vals);
         }
         ctx.level_done("c:member-names-and-strings-of-14-kinds(arrangements-of-2..3)");
+    }
+    // keys that read an enclosing input (a weight table, a sign) through ^ / ^^: every arrangement of 2..4 items
+    {
+        let items = ["a", "b", "c", "d"];
+        let mut todo: Vec<Vec<usize>> = Vec::new();
+        crate::explore::seqs_upto(items.len(), 4, |i| {
+            if i.len() >= 2 && (0..i.len()).all(|a| (0..a).all(|b| i[a] != i[b])) {
+                todo.push(i.to_vec());
+            }
+        });
+        for idx in todo {
+            if !ctx.mine() {
+                continue;
+            }
+            ctx.guard("sort-keys-that-read-enclosing-inputs");
+            ctx.nontrivial();
+            let names = V::Arr(idx.iter().map(|i| V::s(items[*i])).collect());
+            let nums = V::Arr(idx.iter().map(|i| V::int(*i as i128 + 1)).collect());
+            let input = V::Obj(vec![
+                ("names".into(), names.clone()),
+                ("nums".into(), nums.clone()),
+                ("sign".into(), V::int(-1)),
+                ("w".into(), json::parse_str("{\"a\": 3, \"b\": 1, \"c\": 4, \"d\": 2}")),
+                ("groups".into(), V::Arr(vec![names.clone(), V::Arr(vec![V::s("d"), V::s("a")])])),
+            ]);
+            for f in ["(sort_by .names (get ^.w .))", "(sort_by .nums (* . ^.sign))", "(map .groups (sort_by . (get ^^.w .)))", "(order_by .names (- 0 (get ^.w .)))", "(sort_by .names (get ^.w ^.names#0))"] {
+                check_function(ctx, f, &input);
+            }
+        }
+        ctx.level_done("c:sort-keys-that-read-enclosing-inputs(arrangements-of-2..4)");
     }
     // long lists / objects with distinguishable ties (library sorts switch algorithm with the length)
     for n in [20usize, 21, 32, 33, 40, 57, 100] {
